@@ -480,6 +480,8 @@ def _num_equal(a, b, exact, rtol=1e-9):
         return True
     if exact:
         return False
+    if isinstance(a, (np.float32, np.float16)) or isinstance(b, (np.float32, np.float16)):
+        rtol = max(rtol, 1e-5)  # single precision: agreement to single-precision rounding is all that can be asked
     if math.isinf(af) or math.isinf(bf):
         return False
     return abs(af - bf) <= rtol * max(1.0, abs(af), abs(bf))
@@ -496,7 +498,12 @@ def compare(case, got, spec, check_dtype=False):
     for idx in np.ndindex(*exp.shape):
         if spec["dontcare"][idx]:
             continue
-        if not _num_equal(res[idx], exp[idx], exact):
+        ev = exp[idx]
+        if np.dtype(spec["dtype"]).kind in "iu" and isinstance(ev, (float, np.floating)) and ev == ev and not math.isinf(ev) and ev != int(ev):
+            # a floating statistic delivered in a requested integer dtype: NumPy's own answer (np.mean(x, dtype=int64)) is
+            # the value converted to that dtype, i.e. truncated
+            ev = int(ev)
+        if not _num_equal(res[idx], ev, exact):
             return f"value at {idx}: got {res[idx]!r} spec {exp[idx]!r}"
     # groups
     if len(got["groups"]) != len(spec["groups"]):
